@@ -69,6 +69,40 @@ Proof.
   rewrite Z.leb_le. lia.
 Qed.
 
+(* the exact domain: the int64 conversion of TTL and the int64 sum with the lock's physical time do not wrap,
+   i.e. TTL < 2^63 - physical(lockTS)  (physical < 2^46, so every TTL < 2^63 - 2^46 qualifies) *)
+Lemma expiry_consistent_exact : forall last lock ttl,
+  u64 lock -> (forall l, last = Some l -> u64 l) -> 0 <= ttl < two63 - extract_physical lock ->
+  (is_expired last lock ttl = true <-> until_expired last lock ttl <= 0).
+Proof.
+  intros last lock ttl Hlock Hlast Httl. destruct last as [l|]; cbn [is_expired until_expired]; [|split; [lia|reflexivity]].
+  specialize (Hlast l eq_refl). unfold u64 in *.
+  assert (Hpl : 0 <= extract_physical lock < two46) by (unfold extract_physical, two18, two46, two64 in *; lia).
+  assert (Hp : 0 <= extract_physical l < two46) by (unfold extract_physical, two18, two46, two64 in *; lia).
+  rewrite (wrap_i64_id ttl) by (unfold two46, two63 in *; lia).
+  rewrite (wrap_i64_id (extract_physical lock + ttl)) by (unfold two46, two63 in *; lia).
+  rewrite wrap_i64_id by (unfold two46, two63 in *; lia).
+  rewrite Z.leb_le. lia.
+Qed.
+
+(* the boundary is sharp: for every lock and every cached ts with a positive physical part, the first TTL outside
+   the domain, 2^63 - physical(lockTS), makes the two answers disagree *)
+Lemma expiry_boundary_sharp : forall lock l,
+  u64 lock -> u64 l -> 1 <= extract_physical l ->
+  let ttl := two63 - extract_physical lock in
+  is_expired (Some l) lock ttl = true /\ 0 < until_expired (Some l) lock ttl.
+Proof.
+  intros lock l Hlock Hl Hp ttl. unfold u64 in *.
+  assert (Hpl : 0 <= extract_physical lock < two46) by (unfold extract_physical, two18, two46, two64 in *; lia).
+  assert (Hpp : 1 <= extract_physical l < two46) by (unfold extract_physical, two18, two46, two64 in *; lia).
+  cbn [is_expired until_expired]. unfold ttl.
+  set (p := extract_physical lock) in *. set (q := extract_physical l) in *.
+  assert (W1 : wrap_i64 (p + wrap_i64 (two63 - p)) = - two63) by (unfold wrap_i64, two63, two64, two46 in *; lia).
+  rewrite W1.
+  assert (W2 : wrap_i64 (- two63 - q) = two63 - q) by (unfold wrap_i64, two63, two64, two46 in *; lia).
+  rewrite W2. split; [apply Z.leb_le; unfold two63, two46 in *; lia|unfold two63, two46 in *; lia].
+Qed.
+
 Lemma expiry_wide_ttl_refuted : exists last lock ttl,
   u64 lock /\ u64 last /\ u64 ttl /\
   ~ (is_expired (Some last) lock ttl = true <-> until_expired (Some last) lock ttl <= 0).
